@@ -342,6 +342,27 @@ def shard(shard_i, nshards, payload):
                 k = rng.randrange(len(text) + 1)
                 text = text[:k] + rng.choice(["?", "@", "~", "`", "é?"]) + text[k:]
                 kind += "+lexerr"
+            elif i % 7 == 5:
+                # several pieces of text that are not IEC 61131-3, also pieces that run over line ends: braces (pragmas
+                # of other dialects), quotes that are never closed - one of each kind on different lines -, stray
+                # characters; whatever the lexer makes of them, what follows keeps its own offset, line and column
+                pool = ["?", "@", "{", "}", "{attribute 'hide'}", "{attribute 'symbol' := 'read',\n attribute 'hide'}", "{ x\r\n\r\n y }",
+                        "{\n}", "#pragma once", "\\", "§", "¤¤"]
+                for piece in rng.sample(pool, rng.randint(1, 4)):
+                    k = rng.randrange(len(text) + 1)
+                    text = text[:k] + piece + text[k:]
+                if rng.random() < 0.5:
+                    # unclosed strings: the text gets no other quote of that kind, so the quote stays open to the end
+                    text = text.replace("'", " ").replace('"', " ")
+                    lines = text.split("\n")
+                    q1, q2 = rng.sample(["'", '"'], 2)
+                    a = rng.randrange(len(lines))
+                    lines[a] = lines[a] + " " + q1 + "never closed"
+                    if rng.random() < 0.7 and len(lines) > 1:
+                        b = rng.randrange(len(lines))
+                        lines[b] = lines[b] + " " + q2 + "neither"
+                    text = "\n".join(lines)
+                kind += "+lexerrs"
             if i % 9 == 4:
                 # the document while it is being typed: cut off, and ending in a non-ASCII character without a line break
                 import hostile
